@@ -25,7 +25,7 @@ MANIFEST = {
     "technique": "Lean 4 proof (corollaries of the refinement interface) + differential correspondence with the real code",
 }
 
-REQUIRED = ["KV.C03.prob_independent_of_table", "KV.C03.forgot_prob_independent_of_table",
+REQUIRED = ["KV.C03.search_refinement", "KV.C03.probing_refines", "KV.C03.probing_prob", "KV.C03.prob_independent_of_table", "KV.C03.forgot_prob_independent_of_table",
             "KV.C03.trie_mark_loss_harmless", "KV.C03.quant_bin_singleton", "KV.C03.quant_exact", "KV.C03.quant_equal_multiplicity_lossless",
             "KV.C03.quant_distinct_fails", "KV.C03.quant_backoff_one_bit_overflows", "KV.C03.quant_centre_underflow_witness"]
 
